@@ -102,6 +102,7 @@ const KINDS: [&str; 15] = ["append", "append-reverse", "extend-from-drain", "ext
 const STRING_KINDS: [usize; 6] = [5, 8, 9, 10, 11, 12];
 
 pub fn run(args: &Args, rep: &mut Report) {
+    collections_twin(args, rep);
     let mut top = Rng::new(Rng::mix(args.seed ^ 0xC20C, args.shard));
     Env::PLAIN.apply(1);
     for it in 0..args.iters {
@@ -299,6 +300,151 @@ pub fn run(args: &Args, rep: &mut Report) {
         drop(vb);
         if stats(&a) != sa2 {
             rep.violate("C20", format!("C20/cross-arena/{}/dropping-a-vector-of-one-arena-changed-the-other-arena", what), format!("{:?} -> {:?}", sa2, stats(&a)));
+        }
+    }
+}
+
+
+/// One step of collection-level work on an arena; returns what the arena and the container report.
+fn coll_step<'a>(a: &'a Bump, k: u64, keep_s: &mut Vec<BString<'a>>, keep_v: &mut Vec<BVec<'a, u64>>) -> [usize; 4] {
+    use bumpalo::collections::CollectIn;
+    let n = (k >> 8) as usize % 300;
+    let (len, cap) = match k % 10 {
+        0 => {
+            let s = bumpalo::format!(in a, "{:>1$}|{2}", k % 97, n % 90, "x".repeat(n % 40));
+            let r = (s.len(), s.capacity());
+            keep_s.push(s);
+            r
+        }
+        1 => {
+            let s = bumpalo::format!(in a, "{}", k);
+            let r = (s.len(), s.capacity());
+            keep_s.push(s);
+            r
+        }
+        2 => {
+            let s = BString::from_str_in(&"é".repeat(n % 50), a);
+            let r = (s.len(), s.capacity());
+            keep_s.push(s);
+            r
+        }
+        3 => {
+            let v: BVec<u64> = bumpalo::vec![in a; k; n % 60];
+            let r = (v.len(), v.capacity());
+            keep_v.push(v);
+            r
+        }
+        4 => {
+            let v: BVec<u64> = (0..(n % 70) as u64).collect_in(a);
+            let r = (v.len(), v.capacity());
+            keep_v.push(v);
+            r
+        }
+        5 => {
+            if let Some(v) = keep_v.last_mut() {
+                for i in 0..(n % 30) as u64 {
+                    v.push(i);
+                }
+                (v.len(), v.capacity())
+            } else {
+                (0, 0)
+            }
+        }
+        6 => {
+            if let Some(s) = keep_s.last_mut() {
+                use std::fmt::Write;
+                let _ = write!(s, "{:08x}{}", k, "y".repeat(n % 25));
+                (s.len(), s.capacity())
+            } else {
+                (0, 0)
+            }
+        }
+        7 => {
+            let bx = bumpalo::boxed::Box::new_in([k; 5], a);
+            let r = (bx.len(), 5);
+            std::mem::forget(bx);
+            r
+        }
+        8 => {
+            if keep_s.len() > 1 {
+                let s = keep_s.remove(0);
+                drop(s);
+            }
+            if keep_v.len() > 1 {
+                let mut v = keep_v.remove(0);
+                v.shrink_to_fit();
+                let r = (v.len(), v.capacity());
+                keep_v.push(v);
+                r
+            } else {
+                (0, 0)
+            }
+        }
+        _ => {
+            let s = BString::from_utf8_lossy_in(&[b'a', 0xFF, b'b', (k % 200) as u8], a);
+            let r = (s.len(), s.capacity());
+            keep_s.push(s);
+            r
+        }
+    };
+    [len, cap, a.allocated_bytes(), a.chunk_capacity()]
+}
+
+/// C20 at the collections layer, solo against interleaved: the same collection-level program on arena Y
+/// reports the same lengths, capacities and arena statistics whether or not another arena X is doing
+/// (different) collection work in between: macros, formatting, decoders included.
+pub fn collections_twin(args: &Args, rep: &mut Report) {
+    let mut top = Rng::new(Rng::mix(args.seed ^ 0x7C20, args.shard));
+    let rounds = if cfg!(miri) { 2 } else { (args.iters / 20).max(10) };
+    for it in 0..rounds {
+        let pseed = top.next();
+        let steps = if cfg!(miri) { 12 } else { 60 };
+        let prog: Vec<u64> = {
+            let mut r = Rng::new(pseed);
+            (0..steps).map(|_| r.next()).collect()
+        };
+        let cap0 = (pseed >> 40) as usize % 3;
+        let mk = |c: usize| match c {
+            0 => Bump::new(),
+            1 => Bump::with_capacity(100),
+            _ => Bump::with_capacity(3000),
+        };
+        rep.ctx = format!("c20 collections twin {} (seed {} shard {})", it, args.seed, args.shard);
+        // solo
+        let solo: Vec<[usize; 4]> = {
+            let y = mk(cap0);
+            let (mut ks, mut kv) = (Vec::new(), Vec::new());
+            prog.iter().map(|k| coll_step(&y, *k, &mut ks, &mut kv)).collect()
+        };
+        // interleaved with another arena doing different work (before the first step as well)
+        let mixed: Vec<[usize; 4]> = {
+            let x = mk((cap0 + 1) % 3);
+            let y = mk(cap0);
+            let mut other = Rng::new(pseed ^ 0xABCD_EF01);
+            let (mut ks, mut kv) = (Vec::new(), Vec::new());
+            let (mut xs, mut xv) = (Vec::new(), Vec::new());
+            let mut out = Vec::new();
+            for k in &prog {
+                for _ in 0..other.below(3) + 1 {
+                    let kk = other.next();
+                    coll_step(&x, kk, &mut xs, &mut xv);
+                }
+                out.push(coll_step(&y, *k, &mut ks, &mut kv));
+            }
+            out
+        };
+        rep.evaluations += 1;
+        rep.distinct.insert(fnv(pseed, cap0 as u64));
+        rep.add("c20.collection_twin_steps_compared", solo.len() as u64);
+        if let Some(i) = (0..solo.len()).find(|&i| solo[i] != mixed[i]) {
+            rep.violate(
+                "C20",
+                format!("C20/collections-twin/solo-and-interleaved-runs-differ/step-kind-{}", prog[i] % 10),
+                format!("step {}: alone (len, capacity, allocated_bytes, chunk_capacity) = {:?}, with another arena working in between = {:?}", i, solo[i], mixed[i]),
+            );
+        }
+        if rep.violations.len() >= rep.max_violations {
+            return;
         }
     }
 }
